@@ -238,6 +238,18 @@ impl ConsumeUnverifiedBlockProcessor {
             }
         }
 
+        // Another copy of this block may already have failed verification (and been deleted)
+        // while this one was waiting in the queue.
+        if self
+            .shared
+            .get_block_status(&block_hash)
+            .eq(&BlockStatus::BLOCK_INVALID)
+        {
+            return Err(InternalErrorKind::Other
+                .other(format!("block: {} previously verified failed", block_hash))
+                .into());
+        }
+
         let parent_ext = self.shared.store().get_block_ext(&parent_hash).ok_or(
             InternalErrorKind::Other.other(format!(
                 "block: {}'s parent: {}'s block ext not found",
